@@ -173,6 +173,11 @@ def gatherShapes (sg : Graph) : Nat → Nat → List Term → Gathered → Excep
             ((rdfListItems sg v).getD []).filter fun i => !i.isLit
           else if v.isLit then [] else [v]
       else []
+    -- the condition shapes of the shape's rules (direct or list-valued sh:condition)
+    let condChildren : List Term := (sg.objects s (sh "rule")).flatMap fun r =>
+      (sg.objects r (sh "condition")).flatMap fun c =>
+        (if sg.objects c rdfFirst ≠ [] then (rdfListItems sg c).getD [] else [c]).filter fun i => !i.isLit
+    let children := children ++ condChildren
     match (if children = [] then Except.ok acc1 else gatherShapes sg fuel (depth + 1) children acc1) with
     | .error e => .error e
     | .ok acc2 => gatherShapes sg (fuel+1) depth rest acc2
